@@ -212,3 +212,32 @@ impl Storage for Shared {
         self.0.txn(client_id)
     }
 }
+
+
+thread_local! {
+    /// message and location of the most recent panic on this thread (the default hook is silenced)
+    pub static LAST_PANIC: std::cell::RefCell<String> = std::cell::RefCell::new(String::new());
+}
+
+/// silence the default panic output but remember what was said
+pub fn install_panic_recorder() {
+    std::panic::set_hook(Box::new(|info| {
+        let msg = info.payload().downcast_ref::<&str>().map(|s| s.to_string())
+            .or_else(|| info.payload().downcast_ref::<String>().cloned()).unwrap_or_default();
+        let loc = info.location().map(|l| format!("{}:{}", l.file(), l.line())).unwrap_or_default();
+        LAST_PANIC.with(|p| *p.borrow_mut() = format!("{loc} {msg}").replace(['\n', '\r'], " "));
+    }));
+}
+
+/// run one harness operation; a panic of the harness itself while observing the implementation
+/// (a dump, walk or bookkeeping step that met an error it does not expect) becomes a reported
+/// observation instead of ending the run
+pub fn guarded<F: FnOnce()>(out: &mut Vec<String>, what: &str, f: F) {
+    let r = std::panic::catch_unwind(std::panic::AssertUnwindSafe(f));
+    if r.is_err() {
+        let m = LAST_PANIC.with(|p| p.borrow().clone());
+        let m: String = m.chars().filter(|c| !c.is_control()).take(300).collect();
+        out.push(format!("OP mark harness-panic {} :: {}", what.replace(' ', "_"), m.replace(' ', "_")));
+        out.push("R mark".to_string());
+    }
+}
